@@ -82,9 +82,6 @@ Variable sq : forall n, 'M[F]_n -> 'M[F]_n.
 Variable eg : forall n, 'M[F]_n -> 'M[F]_(n,1).
 Let O := MxMat tr sq eg.
 
-Hypothesis sqrt_contract : forall x : F, 0 <= x -> t_sqrt tr x * t_sqrt tr x = x.
-Hypothesis sq_contract : forall n (P : 'M[F]_n), psd P -> sq P *m (sq P)^T = P.
-
 Lemma linear_cols_affine d p (A : 'M[F]_(p,d)) X :
   linear_cols (O:=O) A X = affine_cols (O:=O) A 0 X.
 Proof. by apply: map_ext => x /=; rewrite addr0. Qed.
@@ -109,48 +106,82 @@ Lemma kf_predict_comp_C02 n (Ft Q : 'M[F]_n) (xP : 'cV[F]_n * 'M[F]_n) :
   kf_predict_comp (O:=O) Ft Q xP = (Ft *m xP.1, kf_predict_cov (O:=O) Ft Q xP.2).
 Proof. by []. Qed.
 
+(* ... and its mean is LinearStateModel::propagate of C02 on the one-column matrix, without
+   exogenous model, resp. with the constant exogenous input u(X) = c 1^T *)
+Lemma kf_predict_mean_C02 n (Ft : 'M[F]_n) (x old : 'cV[F]_n) :
+  lin_propagate (O:=O) Ft None false false x old = Ft *m x.
+Proof. by []. Qed.
+
+Lemma kf_predict_mean_exo_C02 n (Ft : 'M[F]_n) (c x old : 'cV[F]_n) :
+  lin_propagate (O:=O) Ft (Some (affine_exo (O:=O) (0 : 'M[F]_n) c)) false false x old = Ft *m x + c.
+Proof.
+rewrite /lin_propagate /= /affine_exo /= mul0mx add0r; congr (_ + _).
+apply/matrixP=> i j; rewrite !mxE big_ord1 /mconst /= !mxE mulr1; congr (c _ _).
+by rewrite !ord1.
+Qed.
+
 (* ---------------- prediction ---------------- *)
 Section Predict.
 Variables (n : nat) (alpha beta kappa : F).
 Variable prev : mixture O n n.
 Hypothesis prev_plain : plain_layout (mx_layout prev) n.
-Hypothesis prev_psd : forall mc, In mc (mx_comps prev) -> psd mc.2.
 Variable Lstate : layout.
 Hypothesis Lstate_lin : l_lin Lstate = n.
 Hypothesis Lstate_circ : l_circ Lstate = 0%N.
 Let k := length (mx_comps prev).
 
+(* additive model x' = F x + b + w (b: a constant exogenous input; b = 0 without one) *)
+Lemma ukf_predict_additive_affine (Ft Q : 'M[F]_n) (b : 'cV[F]_n) q :
+  let w := ut_weights (O:=O) n alpha beta kappa in
+  w_c w != 0 -> t_sqrt tr (w_c w) * t_sqrt tr (w_c w) = w_c w ->
+  (forall mc, In mc (mx_comps prev) -> sq mc.2 *m (sq mc.2)^T = mc.2) ->
+  ukf_predict_additive (O:=O) Lstate alpha beta kappa false false (affine_cols (O:=O) Ft b) Q q prev =
+  mkMix (O:=O) (l_noiseless Lstate)
+        (List.map (fun xP => (Ft *m xP.1 + b, kf_predict_cov (O:=O) Ft Q xP.2)) (mx_comps prev))
+        (repeat (1 / k%:R) k).
+Proof.
+move=> w cp sc fo; rewrite /ukf_predict_additive /= /ut_weights_of.
+have -> : l_dcov (l_noiseless (additive_input_description Lstate q)) = n.
+  by rewrite /l_dcov /l_dx /= Lstate_lin Lstate_circ; lia.
+rewrite /ut_additive_state /ut_state.
+rewrite (ut_core_affine (plain_linear prev_plain) _ _ cp sc _ _ fo) //; last by case: prev_plain.
+by rewrite add_noise_affine /mix_of_result /= map_map.
+Qed.
+
 Lemma ukf_predict_additive_linear (Ft Q : 'M[F]_n) q :
-  0 < w_c (ut_weights (O:=O) n alpha beta kappa) ->
+  let w := ut_weights (O:=O) n alpha beta kappa in
+  w_c w != 0 -> t_sqrt tr (w_c w) * t_sqrt tr (w_c w) = w_c w ->
+  (forall mc, In mc (mx_comps prev) -> sq mc.2 *m (sq mc.2)^T = mc.2) ->
   ukf_predict_additive (O:=O) Lstate alpha beta kappa false false (linear_cols (O:=O) Ft) Q q prev =
   mkMix (O:=O) (l_noiseless Lstate) (List.map (kf_predict_comp (O:=O) Ft Q) (mx_comps prev))
         (repeat (1 / k%:R) k).
 Proof.
-move=> cp; rewrite /ukf_predict_additive /= /ut_weights_of.
-have -> : l_dcov (l_noiseless (additive_input_description Lstate q)) = n.
-  by rewrite /l_dcov /l_dx /= Lstate_lin Lstate_circ; lia.
-rewrite /ut_additive_state /ut_state linear_cols_affine.
-rewrite (ut_core_affine (plain_linear prev_plain) _ _ cp sqrt_contract sq_contract _ _ prev_psd) //.
-  rewrite add_noise_affine /mix_of_result /= map_map; congr mkMix.
-  by apply: map_ext => mc; rewrite /kf_predict_comp /= addr0.
-by case: prev_plain.
+move=> w cp sc fo.
+have E : ukf_predict_additive (O:=O) Lstate alpha beta kappa false false (linear_cols (O:=O) Ft) Q q prev =
+         ukf_predict_additive (O:=O) Lstate alpha beta kappa false false (affine_cols (O:=O) Ft 0) Q q prev.
+  by rewrite /ukf_predict_additive /= /ut_additive_state /ut_state linear_cols_affine.
+rewrite E ukf_predict_additive_affine //; congr mkMix.
+by apply: map_ext => mc; rewrite /kf_predict_comp /= addr0.
 Qed.
 
 Lemma ukf_predict_generic_linear q (Ldesc : layout) (Ft : 'M[F]_n) (B : 'M[F]_(n,q)) (Qw : 'M[F]_q) :
-  l_dcov Ldesc = (n + q)%N -> psd Qw ->
-  0 < w_c (ut_weights (O:=O) (n + q) alpha beta kappa) ->
+  l_dcov Ldesc = (n + q)%N ->
+  let w := ut_weights (O:=O) (n + q) alpha beta kappa in
+  w_c w != 0 -> t_sqrt tr (w_c w) * t_sqrt tr (w_c w) = w_c w ->
+  (forall mc, In mc (mx_comps prev) ->
+     sq (block_mx mc.2 0 0 Qw) *m (sq (block_mx mc.2 0 0 Qw))^T = block_mx mc.2 0 0 Qw) ->
   ukf_predict_generic (O:=O) Ldesc Lstate alpha beta kappa false false
                       (linear_cols (O:=O) (row_mx Ft B)) Qw prev =
   mkMix (O:=O) (l_noiseless Lstate)
         (List.map (kf_predict_comp (O:=O) Ft (B *m Qw *m B^T)) (mx_comps prev))
         (repeat (1 / k%:R) k).
 Proof.
-move=> Hd pQ cp; rewrite /ukf_predict_generic /= /ut_weights_of Hd.
+move=> Hd w cp sc fo; rewrite /ukf_predict_generic /= /ut_weights_of Hd.
 rewrite /ut_state linear_cols_affine.
 have Hl := add_noise_linear q prev_plain.
 have Hx : l_lin (l_add_noise (mx_layout prev) q) = n by case: prev_plain.
 have := @ut_state_affine_augmented F tr sq eg _ (l_noiseless Lstate) n q n Hl Hx Lstate_lin
-          alpha beta kappa cp sqrt_contract sq_contract Ft B 0 Qw pQ (mx_comps prev) prev_psd.
+          alpha beta kappa cp sc Ft B 0 Qw (mx_comps prev) fo.
 rewrite /ut_state => ->.
 rewrite /mix_of_result /= map_map; congr mkMix.
 by apply: map_ext => mc; rewrite /kf_predict_comp /= !addr0.
@@ -253,9 +284,11 @@ Variables (n m : nat) (alpha beta kappa : F).
 Variables (H : 'M[F]_(m,n)) (y : 'cV[F]_m).
 Variables (pred old : mixture O n n) (st : ukf_state O m).
 Hypothesis pred_plain : plain_layout (mx_layout pred) n.
-Hypothesis pred_psd : forall mc, In mc (mx_comps pred) -> psd mc.2.
 Variable Lmeas : layout.
-Hypothesis Lmeas_plain : plain_layout Lmeas m.
+(* the measurement description: m linear components, no circular ones; its noise
+   components are irrelevant (the transformed mixture drops them) *)
+Hypothesis Lmeas_lin : l_lin Lmeas = m.
+Hypothesis Lmeas_circ : l_circ Lmeas = 0%N.
 Let comps := mx_comps pred.
 Let gcomps := List.map (fun xP : 'cV[F]_n * 'M[F]_n => mkGcomp (O:=O) xP.1 xP.2) comps.
 
@@ -267,22 +300,24 @@ Definition kf_result (Reff : 'M[F]_m) : mixture O n n * ukf_state O m * list (kf
    mkUkfState (O:=O) (List.map (fun o => ko_innov o) outs) (List.map (fun o => ko_Py o) outs),
    outs).
 
-Lemma dim_plain : l_dim Lmeas = m.
-Proof. by case: Lmeas_plain => H1 H2 H3; rewrite /l_dim H1 H2 H3; lia. Qed.
+Lemma dcov_meas : l_dcov (l_noiseless Lmeas) = m.
+Proof. by rewrite /l_dcov /l_dx /= Lmeas_lin Lmeas_circ; lia. Qed.
 
 Lemma ukf_correct_additive_linear (Ldesc : layout) (R : 'M[F]_m) :
   l_lin Ldesc = n -> l_circ Ldesc = 0%N ->
-  0 < w_c (ut_weights (O:=O) n alpha beta kappa) ->
+  let w := ut_weights (O:=O) n alpha beta kappa in
+  w_c w != 0 -> t_sqrt tr (w_c w) * t_sqrt tr (w_c w) = w_c w ->
+  (forall mc, In mc (mx_comps pred) -> sq mc.2 *m (sq mc.2)^T = mc.2) ->
   ukf_correct_additive (O:=O) Ldesc Lmeas alpha beta kappa false (Some y)
                        (fun X => Some (linear_cols (O:=O) H X)) (lin_innovation_cols (O:=O))
                        R pred old st = kf_result R.
 Proof.
-move=> Hl Hc cp; rewrite /ukf_correct_additive /ut_weights_of dim_plain.
+move=> Hl Hc w cp sc fo; rewrite /ukf_correct_additive /ut_weights_of dcov_meas.
 have -> : l_dcov (l_noiseless Ldesc) = n by rewrite /l_dcov /l_dx /= Hl Hc; lia.
 rewrite /ut_additive_meas /ut_generic linear_cols_affine.
 have Hn : l_lin (mx_layout pred) = n by case: pred_plain.
-have Hm : l_lin (l_noiseless Lmeas) = m by case: Lmeas_plain.
-rewrite (ut_core_affine (plain_linear pred_plain) Hn Hm cp sqrt_contract sq_contract _ _ pred_psd).
+have Hm : l_lin (l_noiseless Lmeas) = m by [].
+rewrite (ut_core_affine (plain_linear pred_plain) Hn Hm cp sc _ _ fo).
 rewrite add_noise_affine.
 rewrite (map_ext _ (meas_image H R)); last first.
   by move=> xP; rewrite /affine_image /meas_image sel_id mul1mx addr0.
@@ -290,19 +325,22 @@ exact: ukf_correct_finish_kf.
 Qed.
 
 Lemma ukf_correct_generic_linear q (Ldesc : layout) (D : 'M[F]_(m,q)) (Rv : 'M[F]_q) :
-  l_dcov Ldesc = (n + q)%N -> psd Rv ->
-  0 < w_c (ut_weights (O:=O) (n + q) alpha beta kappa) ->
+  l_dcov Ldesc = (n + q)%N ->
+  let w := ut_weights (O:=O) (n + q) alpha beta kappa in
+  w_c w != 0 -> t_sqrt tr (w_c w) * t_sqrt tr (w_c w) = w_c w ->
+  (forall mc, In mc (mx_comps pred) ->
+     sq (block_mx mc.2 0 0 Rv) *m (sq (block_mx mc.2 0 0 Rv))^T = block_mx mc.2 0 0 Rv) ->
   ukf_correct_generic (O:=O) Ldesc Lmeas alpha beta kappa false (Some y)
                       (fun X => Some (linear_cols (O:=O) (row_mx H D) X)) (lin_innovation_cols (O:=O))
                       Rv pred old st = kf_result (D *m Rv *m D^T).
 Proof.
-move=> Hd pR cp; rewrite /ukf_correct_generic /ut_weights_of dim_plain Hd.
+move=> Hd w cp sc fo; rewrite /ukf_correct_generic /ut_weights_of dcov_meas Hd.
 rewrite /ut_meas /ut_generic linear_cols_affine.
 have Hl := add_noise_linear q pred_plain.
 have Hx : l_lin (l_add_noise (mx_layout pred) q) = n by case: pred_plain.
-have Hm : l_lin (l_noiseless Lmeas) = m by case: Lmeas_plain.
+have Hm : l_lin (l_noiseless Lmeas) = m by [].
 have := @ut_generic_affine_augmented F tr sq eg _ (l_noiseless Lmeas) n q m Hl Hx Hm
-          alpha beta kappa cp sqrt_contract sq_contract H D 0 Rv pR (mx_comps pred) pred_psd.
+          alpha beta kappa cp sc H D 0 Rv (mx_comps pred) fo.
 rewrite /ut_generic => /Some_inj ->.
 rewrite (map_ext _ (meas_image H (D *m Rv *m D^T))); last first.
   by move=> xP; rewrite /augmented_image /meas_image !addr0.
@@ -322,7 +360,9 @@ Qed.
 
 Lemma ukf_likelihood_additive_linear (Ldesc : layout) (R : 'M[F]_m) :
   l_lin Ldesc = n -> l_circ Ldesc = 0%N ->
-  0 < w_c (ut_weights (O:=O) n alpha beta kappa) -> comps <> [::] ->
+  let w := ut_weights (O:=O) n alpha beta kappa in
+  w_c w != 0 -> t_sqrt tr (w_c w) * t_sqrt tr (w_c w) = w_c w ->
+  (forall mc, In mc (mx_comps pred) -> sq mc.2 *m (sq mc.2)^T = mc.2) -> comps <> [::] ->
   ukf_likelihood (O:=O)
     (ukf_correct_additive (O:=O) Ldesc Lmeas alpha beta kappa false (Some y)
        (fun X => Some (linear_cols (O:=O) H X)) (lin_innovation_cols (O:=O)) R pred old st).1.2 =
@@ -330,8 +370,11 @@ Lemma ukf_likelihood_additive_linear (Ldesc : layout) (R : 'M[F]_m) :
 Proof. by move=> *; rewrite ukf_correct_additive_linear //; exact: ukf_likelihood_kf. Qed.
 
 Lemma ukf_likelihood_generic_linear q (Ldesc : layout) (D : 'M[F]_(m,q)) (Rv : 'M[F]_q) :
-  l_dcov Ldesc = (n + q)%N -> psd Rv ->
-  0 < w_c (ut_weights (O:=O) (n + q) alpha beta kappa) -> comps <> [::] ->
+  l_dcov Ldesc = (n + q)%N ->
+  let w := ut_weights (O:=O) (n + q) alpha beta kappa in
+  w_c w != 0 -> t_sqrt tr (w_c w) * t_sqrt tr (w_c w) = w_c w ->
+  (forall mc, In mc (mx_comps pred) ->
+     sq (block_mx mc.2 0 0 Rv) *m (sq (block_mx mc.2 0 0 Rv))^T = block_mx mc.2 0 0 Rv) -> comps <> [::] ->
   ukf_likelihood (O:=O)
     (ukf_correct_generic (O:=O) Ldesc Lmeas alpha beta kappa false (Some y)
        (fun X => Some (linear_cols (O:=O) (row_mx H D) X)) (lin_innovation_cols (O:=O)) Rv pred old st).1.2 =
